@@ -90,7 +90,8 @@ def extract(config="W", repo=REPO, quiet=True):
     if os.path.exists(done):
         return out
     os.makedirs(os.path.join(CACHE, "facts"), exist_ok=True)
-    lock_path = os.path.join(CACHE, "extract.lock")
+    lane = os.environ.get("VP_LANE", "")   # development only: parallel lanes on scratch copies use separate build directories
+    lock_path = os.path.join(CACHE, "extract%s.lock" % lane)
     with open(lock_path, "w") as lock:
         fcntl.flock(lock, fcntl.LOCK_EX)
         if os.path.exists(done):
@@ -98,7 +99,7 @@ def extract(config="W", repo=REPO, quiet=True):
         if os.path.exists(out):
             shutil.rmtree(out)
         os.makedirs(out)
-        target = os.path.join(CACHE, "target")
+        target = os.path.join(CACHE, "target" + lane)
         # cargo's freshness cache must not skip the wrapper for workspace members
         for m in MEMBERS:
             for fp in glob.glob(os.path.join(target, "debug", ".fingerprint", m + "-*")):
@@ -133,7 +134,7 @@ def extract(config="W", repo=REPO, quiet=True):
     return out
 
 
-def _gc_cache(keep_digest, max_keep=6):
+def _gc_cache(keep_digest, max_keep=24):
     root = os.path.join(CACHE, "facts")
     ds = [d for d in os.listdir(root) if os.path.isdir(os.path.join(root, d)) and d != keep_digest]
     ds.sort(key=lambda d: os.path.getmtime(os.path.join(root, d)))
